@@ -40,6 +40,20 @@ fn pop_from(v: &Value) -> POp {
     }
 }
 
+/// Everything else a caller can ask of a cursor wherever it stands, without consuming it:
+/// size_hint, len, is_empty, as_bytes, Debug, Clone, equality with its clone.
+fn probe(tlvs: &TypeLengthValues<'_>) -> Value {
+    guard(|| {
+        let (lo, hi) = tlvs.size_hint();
+        let c = tlvs.clone();
+        let same = c == *tlvs;
+        let dbg = format!("{:?}", tlvs).len();
+        json!({"k": "ok", "lo": lo.min(i32::MAX as usize), "hi": hi.map(|x| x.min(i32::MAX as usize) as i64).unwrap_or(-1),
+               "len": tlvs.len(), "empty": tlvs.is_empty(), "bytes": tlvs.as_bytes().len().min(i32::MAX as usize), "clone_eq": same, "dbg": dbg > 0})
+    })
+    .unwrap_or_else(|p| panic_value(&p))
+}
+
 fn strip(v: Value) -> Value {
     match v["k"].as_str() {
         Some("ok") => json!({"k": "ok", "t": v["t"], "v": v["v"]}),
@@ -94,7 +108,8 @@ fn run_program(sid: &str, section: &[u8], prog: &[POp], out: &mut dyn Write) -> 
             }
         });
         match r {
-            Ok(v) => {
+            Ok(mut v) => {
+                v["probe"] = probe(&tlvs);
                 writeln!(out, "{}", v).unwrap();
                 n += 1;
             }
@@ -166,7 +181,7 @@ pub fn run_section_progs(sid: &str, tag: &Value, section: &[u8], progs: &[Vec<PO
         match r {
             Ok(v) => {
                 let is_none = v["k"] == "none";
-                writeln!(out, "{}", json!({"sid": sid, "op": "TlvNext", "r": v})).unwrap();
+                writeln!(out, "{}", json!({"sid": sid, "op": "TlvNext", "r": v, "probe": probe(&tlvs)})).unwrap();
                 n += 1;
                 if is_none {
                     after_none += 1;
